@@ -540,7 +540,8 @@ def doc_one_field(sd, fname, value, nested=True, second_block=False):
         children.append(("B", "NEST", None, [("A", fname, value), ("B", "DEEP", "SELF", [("A", fname, value), ("A", "OTHER", value)])]))
         tree.append(("A", fname, value))
         tree.append(("S", "1", "SEC", [("A", fname, value), ("B", "INSEC", None, [("A", fname, value)])]))
-        tree.append(("B", "OTHERBLOCK", None, [("A", fname, ("Z", "active\n42", None)), ("A", "UNRELATED", value)]))
+        tree.append(("B", "OTHERBLOCK", None, [("A", fname, ("Z", "active\n42", None)), ("A", "UNRELATED", value),
+                                               ("A", fname.lower(), value), ("A", fname.capitalize(), value), ("A", fname + "_X", value)]))
     if second_block:
         tree.append(("B", sd.name, None, [("A", fname, value)]))
     return tree
@@ -555,7 +556,7 @@ def random_value(rng, sd, k, api=False):
 def random_doc(rng, sd, api=False, depth=2):
     """seeded structured instance: missing / extra / duplicated fields, nested occurrences of field names."""
     names = list(sd.fields)
-    extra = ["EXTRA", "Unknown_1", "ZED", "aaa"]
+    extra = ["EXTRA", "Unknown_1", "ZED", "aaa"] + [n.lower() for n in names[:2]] + [n + "_X" for n in names[:1]]
 
     def kids(d):
         out = []
@@ -566,7 +567,7 @@ def random_doc(rng, sd, api=False, depth=2):
                 out.append(("A", k, random_value(rng, sd, k, api)))
             elif r < 0.8:
                 k = rng.choice(extra)
-                out.append(("A", k, rng.choice(GENERIC_STRINGS + WRONG_KINDS[:8])))
+                out.append(("A", k, rng.choice(GENERIC_STRINGS + WRONG_KINDS[:8] + ["active", "Done", "42", "1e5"])))
             elif d > 0:
                 key = rng.choice(["NEST", "DEEP", sd.name] + names[:1])
                 tgt = rng.choice([None, None, "SELF", "CUSTOM", "NOPE"])
